@@ -36,7 +36,7 @@ func NewPacketFactoryCopy() *PacketFactoryCopy {
 		},
 		payloadPool: &sync.Pool{
 			New: func() any {
-				buf := make([]byte, maxPayloadLen)
+				buf := make([]byte, maxPayloadLen+rtxSsrcByteLength) // room for the RFC 4588 OSN prefix
 
 				return &buf
 			},
